@@ -78,7 +78,9 @@ def tla_val(v):
         return str(v)
     if isinstance(v, str):
         return '"%s"' % v
-    if isinstance(v, (list, tuple, set)):
+    if isinstance(v, tuple):
+        return "<<" + ", ".join(tla_val(x) for x in v) + ">>"
+    if isinstance(v, (list, set)):
         return "{" + ", ".join(tla_val(x) for x in v) + "}"
     raise ValueError(v)
 
